@@ -1,6 +1,7 @@
 import Lean.Data.Json
 import ZorgVerif.Gen.Consts
 import ZorgVerif.Model.Zid
+import ZorgVerif.Model.Groups
 /-! Line protocol: one JSON request per line on stdin, one JSON answer per line on stdout. -/
 open Lean ZorgVerif
 
@@ -50,6 +51,33 @@ def handleZid (op : String) (j : Json) : Except String Json := do
     pure (Json.mkObj [("out", Json.arr outs), ("final", Json.arr fin.toArray)])
   | _ => throw s!"unknown op {op}"
 
+def dateOf (j : Json) (k : String) : Except String Date := do
+  let a ← arrOf j k
+  let y ← (a[0]?.getD Json.null).getNat?
+  let m ← (a[1]?.getD Json.null).getNat?
+  let d ← (a[2]?.getD Json.null).getNat?
+  pure ⟨y, m, d⟩
+
+def handleGroups (op : String) (j : Json) : Except String Json := do
+  match op with
+  | "groups.expand" =>
+    let mp ← arrOf j "map"
+    let m : Groups.GroupMap ← mp.toList.mapM (fun p => do
+      let a ← p.getArr?
+      let k ← (a[0]?.getD Json.null).getStr?
+      let vs ← (a[1]?.getD Json.null).getArr?
+      let vs ← vs.toList.mapM (fun v => v.getStr?)
+      pure (k.toList, vs.map String.toList))
+    let args ← strsOf j "args"
+    let today ← dateOf j "today"
+    let fuel ← j.getObjValAs? Nat "fuel"
+    match Groups.expand m (fun s => Groups.fmt today (s.length + 1) s) fuel (args.map String.toList) with
+    | .ok r => pure (Json.mkObj [("ok", Json.arr (r.map jstr).toArray)])
+    | .error (.keyError n) => pure (Json.mkObj [("err", "keyError"), ("name", jstr n)])
+    | .error .fuel => pure (Json.mkObj [("err", "fuel")])
+    | .error (.format _) => pure (Json.mkObj [("err", "format")])
+  | _ => throw s!"unknown op {op}"
+
 def handle (line : String) : Json :=
   match Json.parse line with
   | .error e => Json.mkObj [("driver_error", s!"parse: {e}")]
@@ -59,6 +87,7 @@ def handle (line : String) : Json :=
     | .ok op =>
       let r :=
         if op.startsWith "zid." then handleZid op j
+        else if op.startsWith "groups." then handleGroups op j
         else .error s!"unknown op {op}"
       match r with
       | .ok v => v
